@@ -122,6 +122,7 @@ pub struct Ctx {
     /// path signatures seen (distinct path words)
     pub paths: HashSet<u128>,
     pub panics_caught: u64,
+    pub noise_ops: u64,
     pub exhaustive_notes: Vec<String>,
     pub notes: BTreeMap<String, u64>,
     /// event log (sampled) for the offline re-checker
@@ -151,6 +152,7 @@ impl Ctx {
             out_digest: 0,
             paths: HashSet::new(),
             panics_caught: 0,
+            noise_ops: 0,
             exhaustive_notes: Vec::new(),
             notes: BTreeMap::new(),
             events: Vec::new(),
@@ -216,6 +218,14 @@ impl Ctx {
     /// Start a case: clears the path word
     pub fn begin_case(&mut self, case: &Case) {
         self.cases += 1;
+        // history perturbation (see noise.rs): one case in sixteen is preceded by unrelated calls
+        if !cfg!(miri) {
+            let h = case.hash();
+            if h % 16 == 0 {
+                crate::noise::perturb(h >> 4);
+                self.noise_ops += 1;
+            }
+        }
         if let Some(d) = self.dump.as_mut() {
             d.push(format!("CASE\t{}\t{}", self.cases, serde_json::to_string(&case.toks).unwrap()));
         }
@@ -337,6 +347,7 @@ impl Merged {
         for s in c.samples { if self.samples.len() < 10 { self.samples.push(s); } }
         for p in c.paths { self.paths.insert(p); }
         self.panics_caught += c.panics_caught;
+        if c.noise_ops > 0 { *self.notes.entry("history-perturbations".to_string()).or_insert(0) += c.noise_ops; }
         for n in c.exhaustive_notes { if !self.exhaustive_notes.contains(&n) { self.exhaustive_notes.push(n); } }
         for (k, v) in c.notes { *self.notes.entry(k).or_insert(0) += v; }
         self.events.extend(c.events);
